@@ -63,6 +63,9 @@ META["rule"] += (
 META["rule"] += (
     " " + 'Added later: state changes the object refuses (non-square adjacency, wrong-length node weights, attribute / resistance matrix of another size, edge list with a non-existent node, recurrence rate > 1, window that selects nothing) are steps of the histories: the call must raise and every query must then equal that of a new object of the unchanged model; str(obj) is a query of every subject.')
 
+META["rule"] += (
+    " " + 'Added after the sixth round: the cache shadow fingerprints every mutable memoised value when it is stored and compares at every later hit (memoised-value-modified); state changes applied to a clone (copy(), deep copy, pickle round trip) are neutral steps; answers handed out by method calls before a state change are compared after it; the twin is asked in reverse order on odd steps; 12 % of the cases ask all queries that read the link attribute.')
+
 def pre_import():
     from pvm.mon import shadow_cache
     shadow_cache.install()
@@ -200,15 +203,40 @@ def one_case(ctx, sub, r, cid, max_hist, nq, call, agree, qcache, SC, S,
     except Exception as e:   # noqa: construction of the *initial* object
         ctx.count(f"initial_build_raises:{sub.name}:{type(e).__name__}")
         return
+    SC.forget_values()
+    del SC.MODIFIED[:]
+    _call = call
+
+    def call(q, o):     # noqa: every call, on the object and on its twins
+        res = _call(q, o)
+        if SC.MODIFIED:
+            # a memoised value was handed out again and is no longer what
+            # it was when it was stored
+            for cn_, mn_ in set(SC.MODIFIED):
+                ctx.violation(f"{cn_}.{mn_}:memoised-value-modified",
+                              {"class": sub.name}, cid)
+            del SC.MODIFIED[:]
+        return res
     allq = sub.queries(obj, m)
     idx = r.permutation(len(allq))[:nq]
     Q = [allq[i] for i in sorted(idx)]
+    keyed = [q for q in allq if "=w" in q[0]]
+    if keyed and r.random() < 0.12:
+        # every query that reads the link attribute, in a random order (they
+        # share memoised intermediate results: weighted path lengths, ...)
+        Q = [keyed[i] for i in r.permutation(len(keyed))]
+        ctx.count("cases_with_all_keyed_queries")
     # summary attributes always take part
     Q += [q for q in allq if q[0].startswith("attr:") and q not in Q]
     prev = {}
+    held = {}        # arrays handed out: (live object, its snapshot)
     for label, q in Q:
         ok, v = call(q, obj)
         prev[label] = (ok, snapshot(v))
+        # (results of method calls; an attribute read hands out the object's
+        #  own state, which documented in-place setters do edit)
+        if ok and isinstance(v, np.ndarray) and not label.startswith("attr:"):
+            held[label] = (v, prev[label][1])
     def _clear(o, mm, rr):
         # the documented ways of dropping caches by hand: a state change of
         # the caches only, every answer must stay what it is
@@ -223,6 +251,46 @@ def one_case(ctx, sub, r, cid, max_hist, nq, call, agree, qcache, SC, S,
         return mm
     muts = list(sub.mutators()) + [("cache_clear", _clear)]
     muts += rejected_changes(ctx, obj, m, S)
+    real = list(sub.mutators())
+
+    def _on_a_clone(how):
+        # a state change applied to a copy of the object (its own copy(), a
+        # deep copy, a pickle round trip): the object itself is what it was
+        def mut(o, mm, rr):
+            import pickle
+            try:
+                if how == "copy()":
+                    if not callable(getattr(o, "copy", None)):
+                        raise S.Skip()
+                    c = o.copy()
+                elif how == "deepcopy":
+                    c = copy.deepcopy(o)
+                else:
+                    c = pickle.loads(pickle.dumps(o))
+            except S.Skip:
+                raise
+            except Exception:  # noqa: not every class can be cloned this way
+                ctx.count("clone_not_possible:" + how)
+                raise S.Skip()
+            if not real:
+                raise S.Skip()
+            nm, fn = real[int(rr.integers(0, len(real)))]
+            try:
+                fn(c, dict(mm), rr)
+            except Exception:  # noqa: (a clone of another class, e.g.
+                #                  Network.copy() of a subclass object)
+                ctx.count("clone_mutator_not_applicable")
+            if hasattr(c, "set_link_attribute") and hasattr(c, "n_links") \
+                    and int(c.n_links) > 0:
+                A_ = np.asarray(c.adjacency)
+                c.set_link_attribute("w", (A_ != 0) * 5.5)
+                if hasattr(c, "del_link_attribute") and rr.random() < 0.3:
+                    c.del_link_attribute("w")
+            ctx.count("state_changes_on_a_clone:" + how)
+            return mm
+        return ("on-a-clone:" + how, mut)
+    muts += [_on_a_clone("copy()"), _on_a_clone("deepcopy"),
+             _on_a_clone("pickle")]
     hist = []
     L = int(r.integers(1, max_hist + 1))
     applied = []          # (mutator index, seed of its private rng)
@@ -252,6 +320,18 @@ def one_case(ctx, sub, r, cid, max_hist, nq, call, agree, qcache, SC, S,
             return
         m = m2
         hist.append(mname)
+        # answers handed out before the change belong to the caller: the
+        # change must not have edited them
+        for lb0, (live, snap0_) in list(held.items()):
+            ctx.count("held_answers_checked")
+            c_, e_ = same(live, snap0_, rtol=0, atol=0)
+            if c_ and not e_:
+                ctx.violation(f"{sub.name}:{lb0}:{mname}:"
+                              "answer-handed-out-earlier-modified",
+                              {"class": sub.name, "query": lb0,
+                               "history": hist, "now": brief(live),
+                               "was": brief(snap0_)}, cid)
+                held.pop(lb0)
         # object first (may hit a stale entry) ...
         got, hits = {}, {}
         for label, q in Q:
@@ -271,7 +351,10 @@ def one_case(ctx, sub, r, cid, max_hist, nq, call, agree, qcache, SC, S,
             ctx.count(f"fresh_build_raises:{sub.name}:{type(e).__name__}")
             return
         cold = None
-        for label, q in Q:
+        # (the twin is asked in another order than the object: an answer
+        #  must not depend on what was asked before it either)
+        Qf = Q if step % 2 == 0 else list(reversed(Q))
+        for label, q in Qf:
             if is_spectral(label) and not spectral_defined(obj):
                 # leading eigenvector of a disconnected / directed graph is
                 # not unique (ARPACK returns an arbitrary one): undefined
@@ -319,6 +402,9 @@ def one_case(ctx, sub, r, cid, max_hist, nq, call, agree, qcache, SC, S,
                  "model": {kk: brief(vv) for kk, vv in m.items()}}, cid)
         for label, q in Q:
             prev[label] = (got[label][0], snapshot(got[label][1]))
+            if got[label][0] and isinstance(got[label][1], np.ndarray) \
+                    and not label.startswith("attr:"):
+                held[label] = (got[label][1], prev[label][1])
         if len(ctx.samples) < 4 and hist:
             ctx.sample({"class": sub.name, "history": list(hist),
                         "queries": [lb for lb, _ in Q][:8]})
